@@ -185,6 +185,54 @@ fn coq_case(id: usize, c: &Case, obs: &[Obs]) -> String {
     )
 }
 
+/// Real concurrency with the clock FROZEN (hook H1: nobody advances it during a round): N threads
+/// released by a barrier hit one limiter; because no time passes, the bound is exact:
+/// admitted(tenant) <= qps and admitted(all) <= global. Exercises first contact of a fresh tenant
+/// (bucket creation under the write lock) and steady state. Returns (rounds, failures).
+fn concurrent_stream(rounds: usize, seed: u64) -> (usize, Vec<serde_json::Value>) {
+    use std::sync::{Arc, Barrier};
+    let mut r = Rng::new(seed ^ 0xC0_19);
+    let mut fails = vec![];
+    for round in 0..rounds {
+        let threads = *r.pick(&[2usize, 4, 8, 8]);
+        let calls = *r.pick(&[1usize, 1, 2, 4]);
+        let qps = *r.pick(&[1u32, 1, 2, 3, 5]);
+        let global = if r.chance(1, 3) { Some(*r.pick(&[1u32, 2, 4])) } else { None };
+        let tenants = if r.chance(1, 4) { 2usize } else { 1 };
+        let lim = Arc::new(RateLimiter::new_with_global(global));
+        // half of the rounds: buckets already exist (steady state); other half: first contact
+        let warm = r.chance(1, 2);
+        if warm {
+            for t in 0..tenants { let _ = lim.available_tokens(&format!("r{}t{}", round, t)); }
+        }
+        let barrier = Arc::new(Barrier::new(threads));
+        let mut hs = vec![];
+        for th in 0..threads {
+            let lim = Arc::clone(&lim);
+            let barrier = Arc::clone(&barrier);
+            hs.push(std::thread::spawn(move || {
+                barrier.wait();
+                let mut adm = vec![0u64; tenants];
+                for c in 0..calls {
+                    let t = (th + c) % tenants;
+                    if lim.check_limit(&format!("r{}t{}", round, t), qps) { adm[t] += 1 }
+                }
+                adm
+            }));
+        }
+        let mut adm = vec![0u64; tenants];
+        for h in hs { let a = h.join().unwrap(); for t in 0..tenants { adm[t] += a[t] } }
+        let total: u64 = adm.iter().sum();
+        let mut why = None;
+        for t in 0..tenants { if adm[t] > qps as u64 { why = Some(format!("tenant {} admitted {} > burst {} with NO time elapsed ({} threads x {} calls, {})", t, adm[t], qps, threads, calls, if warm { "existing bucket" } else { "first contact" })) } }
+        if let Some(g) = global { if total > g as u64 { why = Some(format!("total admitted {} > global burst {} with NO time elapsed", total, g)) } }
+        if let Some(w) = why {
+            fails.push(json!({"id": format!("concurrent-{}", round), "why": w, "case": {"kind": "concurrent", "threads": threads, "calls_per_thread": calls, "qps": qps, "global": global, "tenants": tenants, "warm": warm, "admitted": adm, "rounds": rounds, "seed": seed}}));
+        }
+    }
+    (rounds, fails)
+}
+
 fn main() {
     let args: Vec<String> = std::env::args().collect();
     let mut out = String::from("/tmp");
@@ -205,6 +253,14 @@ fn main() {
     if let Some(p) = &replay {
         let v: serde_json::Value = serde_json::from_str(&std::fs::read_to_string(p).unwrap()).unwrap();
         let cv = if v.get("case").is_some() { v["case"].clone() } else { v };
+        if cv["kind"] == "concurrent" {
+            let (nr, fails) = concurrent_stream(cv["rounds"].as_u64().unwrap_or(600) as usize, cv["seed"].as_u64().unwrap_or(1));
+            println!("c19 replay (concurrent): {} rounds, {} failures", nr, fails.len());
+            let summary = json!({"cases": 0, "shards": 0, "concurrent_rounds": nr, "oracle_failures": fails, "distinct": 0, "nontrivial": 0, "histogram": {}, "samples": []});
+            std::fs::write(format!("{}/summary.json", out), serde_json::to_string_pretty(&summary).unwrap()).unwrap();
+            std::fs::write(format!("{}/all_cases.json", out), "[]").unwrap();
+            return;
+        }
         cases.push(case_from_json(&cv));
     } else {
         // corpus first
@@ -276,8 +332,11 @@ fn main() {
         );
         std::fs::write(format!("{}/cases_{}.v", out, k), text).unwrap();
     }
+    let conc_rounds = if replay.is_some() { 0 } else { (n * 2).max(200) };
+    let (conc_n, conc_fails) = concurrent_stream(conc_rounds, Rng::from_env().next_u64());
+    for f in conc_fails.into_iter().take(3) { oracle_fail.push(f); }
     let summary = json!({
-        "cases": cases.len(), "shards": shards.len(),
+        "cases": cases.len(), "shards": shards.len(), "concurrent_rounds": conc_n,
         "oracle_failures": oracle_fail,
         "distinct": distinct.len(), "nontrivial": nontrivial,
         "histogram": {"check": n_check, "admitted": n_adm, "refused": n_ref, "refused_by_global_observed": n_glob_refused, "advance": n_adv, "avail": n_avail},
